@@ -28,6 +28,7 @@ NCPU = os.cpu_count() or 4
 PROPS = {
     "C01": dict(run="^TestC01$", shards=(4, 16), deadline=(300, 2400)),
     "C02": dict(run="^TestC02$", shards=(4, 16), deadline=(300, 1800)),
+    "C03": dict(run="^TestC03$", shards=(4, 16), deadline=(300, 1800)),
     "C04": dict(run="^TestC04$", shards=(4, 16), deadline=(300, 1800)),
     "C05": dict(run="^TestC05$", shards=(4, 16), deadline=(300, 1800)),
     "C06": dict(run="^TestC06$", shards=(4, 16), deadline=(300, 1800)),
